@@ -27,19 +27,35 @@ META = {
     "assumptions": [],
 }
 SYM = ["errno left by callbacks (int)", "quit code (uint8)"]
-SYMF = SYM + ["flag bits of X (ALLOW_REPLACE, DENY_PUB, DENY_SUB, DENY_CTX)"]
+SYMF = SYM
 PIPE = 12
+XFLS = ["0", "M_MOD_ALLOW_REPLACE", "M_MOD_DENY_PUB|M_MOD_DENY_SUB|M_MOD_DENY_CTX", "M_MOD_PERSIST|M_MOD_DENY_CTX"]
+_n = [0]
 
 
-def _job(name, script, symbolic=SYM, blk=None, unwind=13, timeout=900):
+def _job(name, script, symbolic=SYM, blk=None, unwind=13, timeout=600, cb=None):
     d = {"SCRIPT": script}
+    d.update(cb or {})
+    if "REGF" in script:
+        # flags of X: a per-job constant (a symbolic flags word forks the heap shape inside m_mod_register); rotate
+        xf = XFLS[_n[0] % (3 if "DEREG" in script or (blk and "DEREG" in blk) else 4)]
+        _n[0] += 1
+        d["XFL"] = "(%s)" % xf
     if blk:
         d["BLK"] = 1
         d["BSCRIPT"] = blk
     j = l2_job("C19." + name, "l2/c19_notify.c", defines=d, symbolic=symbolic, unwind=unwind, timeout=timeout,
-               bounds=(script + (" || per round: " + blk if blk else "")))
+               bounds=(script + (" || per round: " + blk if blk else "") + (" || in X's callbacks: %s" % cb if cb else "")))
     j.src_defines["VF_PIPE_MAX"] = PIPE
     return j
+
+
+def _tickarm():
+    return Job("C19.tick.arm", "l1/c19_tickarm.c", sources=["Lib/core/poll/cmn_linux.c"], extra_harness=["common/vf_defs.c"],
+               unwind=4, layer="l1", backend="cvc5-int", timeout=300, common_fp=False,
+               symbolic=["period ns (uint64, full range)", "source flags (all bits)", "clock id"],
+               bounds="one timer source armed by create_priv_fd(): it_value == period for every period, interval == "
+                      "period unless one-shot")
 
 
 def _l1(name, inner):
@@ -57,7 +73,7 @@ def _l1(name, inner):
                       "when a RUNNING module leaves RUNNING, sender = the module")
 
 
-PRE = "REG(S) REGF(X) START(S) "
+PRE = "REG(S) REGF(X) NOEVAL(X) START(S) "
 BOTH = "SUB(S,T_MS) SUB(S,T_MX) "
 END = " DRAIN QUIT DISP"
 
@@ -67,14 +83,14 @@ QUICK = [
     ("pill", PRE + BOTH + "LOOP START(X) DISP PILL(S,X) DISP" + END, SYMF, None),
     ("ctx2", PRE + "SUB(S,T_CS) SUB(S,T_CX) LOOP DRAIN QUIT DISP LOOP DRAIN QUIT DISP", SYMF, None),
     ("spaused", PRE + BOTH + "LOOP PAUSE(S) START(X) PAUSE(X) RESUME(S)" + END, SYMF, None),
-    ("autostart", PRE + "SUB(S,T_MS) SUB(S,T_CS) LOOP" + END, SYMF, None),
+    ("autostart", "REG(S) REGF(X) START(S) SUB(S,T_MS) SUB(S,T_CS) LOOP" + END, SYMF, None),
     ("sidle", "REG(S) REG(X) SUB(S,T_CS) SUB(S,T_MX) LOOP DRAIN PAUSE(X)" + END, SYM, None),
     ("latesub", PRE + "LOOP START(X) SUB(S,T_MX) PAUSE(X) DRAIN UNSUB(S,T_MX) RESUME(X) STOP(X) DISP QUIT DISP", SYMF, None),
     ("stoppaused", PRE + "SUB(S,T_MX) LOOP START(X) PAUSE(X) DRAIN STOP(X) DRAIN DEREG(X)" + END, SYMF, None),
-    ("twosubs", "REG(S) REGF(X) REG(Y) START(S) START(Y) SUB(S,T_MS) SUB(Y,T_MS) SUB(Y,T_MX) LOOP START(X) DRAIN STOP(X)" + END, SYMF, None),
+    ("twosubs", "REG(S) REGF(X) NOEVAL(X) REG(Y) START(S) START(Y) SUB(S,T_MS) SUB(Y,T_MS) SUB(Y,T_MX) LOOP START(X) DRAIN STOP(X)" + END, SYMF, None),
     ("beforeloop", PRE + "SUB(S,T_MS) START(X) LOOP" + END, SYMF, None),
-    ("tick", "REG(S) START(S) SUB(S,T_TK) SETTICKC(5000000) LOOP FIRE DISP DISP FIRE DISP" + END, SYM + ["tick period (uint64, != 0)"], None),
-    ("refuse", "REG(S) REG(X) REFUSE(X) START(S) " + BOTH + "LOOP START(X)" + END, SYM, None),
+    ("tick", "REG(S) START(S) SUB(S,T_TK) SETTICKC(1000000001) LOOP FIRE DISP DISP FIRE DISP" + END, SYM, None),
+    ("refuse", "REG(S) REG(X) NOEVAL(X) REFUSE(X) START(S) " + BOTH + "LOOP START(X)" + END, SYM, None),
     ("blk.cycle", "REG(S) REGF(X) REG(Y) START(S) START(Y) " + BOTH + "BLOCK", SYMF,
      "B(0,PAUSE(X)) B(1,RESUME(X)) B(2,STOP(X)) B(3,QUIT)"),
     ("blk.ctx", "REG(S) REGF(X) REG(Y) START(S) START(Y) SUB(S,T_CS) SUB(S,T_CX) BLOCK", SYMF, "B(0,DEREG(X)) B(1,QUIT)"),
@@ -82,15 +98,18 @@ QUICK = [
 
 THOROUGH_EXTRA = [
     ("pausedatend", PRE + "SUB(S,T_CX) SUB(S,T_MS) LOOP START(X) PAUSE(S) QUIT DISP RESUME(S) LOOP" + END, SYMF, None),
-    ("tick.reconf", "REG(S) START(S) SUB(S,T_TK) SETTICK LOOP SETTICK FIRE DISP" + END, SYM + ["tick periods (uint64, != 0)"], None),
-    ("tick.twosubs", "REG(S) REG(Y) START(S) START(Y) SUB(S,T_TK) SUB(Y,T_TK) SETTICK LOOP FIRE DISP" + END, SYM + ["tick period"], None),
-    ("tick.restart", "REG(S) START(S) SUB(S,T_TK) SETTICK LOOP FIRE DISP DRAIN QUIT DISP LOOP FIRE DISP" + END, SYM + ["tick period"], None),
-    ("twoactors", "REG(S) REGF(X) REG(Y) START(S) " + BOTH + "LOOP START(X) START(Y) DRAIN PAUSE(Y) STOP(X) DRAIN DEREG(Y)" + END, SYMF, None),
+    ("tick.reconf", "REG(S) START(S) SUB(S,T_TK) SETTICKC(7) LOOP SETTICKC(999999999) FIRE DISP" + END, SYM, None),
+    ("tick.twosubs", "REG(S) REG(Y) START(S) START(Y) SUB(S,T_TK) SUB(Y,T_TK) SETTICKC(1) LOOP FIRE DISP" + END, SYM, None),
+    ("tick.restart", "REG(S) START(S) SUB(S,T_TK) SETTICKC(18446744073709551615ull) LOOP FIRE DISP DRAIN QUIT DISP LOOP FIRE DISP" + END, SYM, None),
+    ("twoactors", "REG(S) REGF(X) NOEVAL(X) REG(Y) NOEVAL(Y) START(S) " + BOTH + "LOOP START(X) START(Y) DRAIN PAUSE(Y) STOP(X) DRAIN DEREG(Y)" + END, SYMF, None),
     ("restart", PRE + BOTH + "LOOP START(X) STOP(X) DRAIN START(X)" + END, SYMF, None),
-    ("evalstart", "REG(S) START(S) SUB(S,T_MS) LOOP REGF(X) SETTICK FIRE DISP" + END, SYMF, None),
+    ("evalstart", "REG(S) START(S) SUB(S,T_MS) LOOP REGF(X) SETTICKC(5000000) FIRE DISP" + END, SYMF, None),
     ("blk.stopall", "REG(S) REGF(X) REG(Y) START(S) START(Y) " + BOTH + "BLOCK", SYMF, "B(0,PAUSE(X)) B(1,STOP(X)) B(2,STOP(S)) B(3,STOP(Y))"),
     ("blk.spaused", "REG(S) REGF(X) REG(Y) START(S) START(Y) " + BOTH + "BLOCK", SYMF,
      "B(0,PAUSE(S)) B(1,PAUSE(X)) B(2,RESUME(S)) B(3,RESUME(X)) B(4,QUIT)"),
+    ("blk.selfstop", "REG(S) REGF(X) REG(Y) START(S) START(Y) " + BOTH + "BLOCK", SYMF, "B(0,PAUSE(X)) B(1,QUIT STOP(Y))"),
+    ("blk.selfdereg", "REG(S) REGF(X) REG(Y) START(S) START(Y) " + BOTH + "BLOCK", SYMF, "B(0,QUIT DEREG(Y))"),
+    ("tick.off", "REG(S) START(S) SUB(S,T_TK) SETTICKC(5000000) LOOP FIRE DISP DRAIN TICKOFF FIRE DISP" + END, SYM, None),
 ]
 
 # grammar of X's transitions (state machine of C01): every valid sequence of <= N transitions from IDLE
@@ -111,9 +130,14 @@ def _seqs(n, st="I"):
 
 
 def jobs(tier):
-    js = [_l1("step", False)]
+    js = [_l1("step", False), _tickarm()]
     for name, script, sym, blk in QUICK:
         js.append(_job(name, script, sym, blk))
+    # nesting: X's on_start pauses Y / X's on_stop starts Y (which on_eval keeps IDLE), S hears about both modules
+    js.append(_job("nest.start", "REG(S) REGF(X) NOEVAL(X) REG(Y) START(S) START(Y) " + BOTH + "LOOP START(X)" + END, SYMF,
+                   cb={"CBSTART": "PAUSE(Y)"}))
+    js.append(_job("nest.stop", "REG(S) REGF(X) NOEVAL(X) REG(Y) NOEVAL(Y) START(S) START(X) " + BOTH + "LOOP STOP(X)" + END, SYMF,
+                   cb={"CBSTOP": "START(Y)"}))
     if tier == "thorough":
         js.append(_l1("step.reentrant", True))
         for name, script, sym, blk in THOROUGH_EXTRA:
@@ -131,7 +155,7 @@ def jobs(tier):
             js.append(_job("seq.run.%s" % tag, PRE + BOTH + "LOOP " + body + END, SYMF))
             # the subscriber is PAUSED while X moves and reads everything after its resume; Y keeps the loop alive
             if "PILL" not in key:
-                js.append(_job("seq.paused.%s" % tag, "REG(S) REGF(X) REG(Y) START(S) START(Y) " + BOTH + "LOOP PAUSE(S) " +
+                js.append(_job("seq.paused.%s" % tag, "REG(S) REGF(X) NOEVAL(X) REG(Y) START(S) START(Y) " + BOTH + "LOOP PAUSE(S) " +
                                " ".join(seq) + " RESUME(S)" + END, SYMF))
     return js
 
